@@ -33,7 +33,7 @@ LEGACY_NAMES = {
 MINORS = ["2.7", "3.0", "3.1", "3.6", "3.7", "3.8", "3.9", "3.10", "3.11", "3.12", "3.13", "4.0"]
 MICROS = [0, 1, 2, 10]
 PYV_LITS = MINORS + ["3", "2", "4"] + ["3.8.1", "3.8.0", "3.10.2"]  # X.Y.Z on python_version: valid PEP 508, seen in real metadata
-PYV_LITS += ["3.9.0", "3.9.1", "v3.9.1", "0!3.8", "0!3.8.1", "3.9.1.0"]  # other PEP 440 spellings of the same versions
+PYV_LITS += ["3.9.0", "3.9.1", "v3.9.1", "0!3.8", "0!3.8.1", "3.9.1.0", "1!3.8"]  # other PEP 440 spellings of the same versions
 PYV_LITS += ["3.8rc1", "3.9.1rc1", "3.8.1rc1", "3.9.1.dev0", "3.8.post1", "3.post1"]  # between two python_version values (comparison operators only)
 PYFV_LITS = [f"{m}.{z}" for m in ["2.7", "3.0", "3.7", "3.8", "3.9", "3.10", "3.12"] for z in MICROS] + ["3.7", "3.8", "3.9", "3.10", "2.7"] + ["3.9a1", "3.10.0rc1", "3.8.0b2"]
 REL_LITS = ["5.4", "5.4.0", "5.15.0", "6.0", "6.1", "10", "21.6.0", "6"]
